@@ -1,5 +1,6 @@
 """C07 - HDDDM/CDBD alarm exactly when the distance change exceeds the adaptive bound."""
 from .. import drv_hdm as D
+from .. import containers as C
 
 
 def run(ctx):
@@ -10,6 +11,8 @@ def run(ctx):
     ts = []
     for i in range(n):
         p = D.params(rng)
+        if i % 3 != 0:      # two thirds of the histories draw their containers per call (arrays in either order, frames, lists, int dtypes, views)
+            C.choose(rng, p, C.BATCH_KINDS)
         ts.append(D.run(p, D.history(rng, p, nb), seed=rng.randrange(10 ** 6), frame=rng.random() < 0.6))
     ctx.validate("HDM", ts, "HDDDM / CDBD histories on integer data", sabotage=D.sabotage,
                  replay=lambda i: {"params": ts[i]["params"], "script": ts[i]["script"], "seed": ts[i]["seed"], "frame": ts[i]["frame"]},
